@@ -84,6 +84,9 @@ def check(ctx, res) -> None:
     from .c14 import line_table_rule
 
     line_table_rule(ctx, res, "R02.11")
+    from .c15 import region_interval_rule
+
+    region_interval_rule(ctx, res, "R02.12")
 
 
 def _check_main(ctx, res) -> None:
